@@ -354,6 +354,14 @@ def r1(ctx, dr, ex, outs, msg):
                f"a path ending at `{norm(node) if node is not None else 'end of function'}` leaves a reliable packet "
                f"unacknowledged")
     ctx.floor("C19.R1", "completing receive paths", n, 2)
+    # a decoded reliable packet is acknowledged even when the endpoint then refuses the message (raise): no raise
+    # leaves datagram_received between the decode and the ack
+    for kind, node, st in outs:
+        if kind != "raise" or not isinstance(node, ast.Raise) or not st.data["parsed"] or _reliable_on(st, msg) is False:
+            continue
+        ctx.ob("C19.R1", "datagram_received: no raise leaves a decoded reliable packet unacknowledged", st.data["acked"],
+               ctx.w(dr, node), f"`{norm(node)}` is reached before send_acks: a reliable packet whose message is refused "
+               f"(UDP-banned) is never acknowledged and the peer keeps retransmitting it")
 
 
 def r2(ctx, dr, ex, outs, msg):
@@ -415,6 +423,14 @@ def r3(ctx, dr, ex, outs, msg):
                f"a path ending at `{norm(node) if node is not None else 'end of function'}` (duplicate={st.data['dup']}) "
                f"never calls collect_acks: an ack riding on that datagram is lost, the send it acknowledges is "
                f"retransmitted and finally fails")
+
+    for kind, node, st in outs:
+        if kind != "raise" or not isinstance(node, ast.Raise) or not st.data["parsed"]:
+            continue
+        ctx.ob("C19.R3", "datagram_received: no raise leaves a decoded datagram before its acks are collected",
+               st.data["collected"], ctx.w(dr, node),
+               f"`{norm(node)}` is reached before collect_acks: acks riding on a datagram whose message is refused "
+               f"(UDP-banned) are lost and the sends they acknowledge never complete")
 
     # ---- track_reliable
     from .c05 import follow_delegate, forwarded_field, field_names, table_writers, insertion_sites, resolve_any_call, \
